@@ -377,7 +377,16 @@ func (g *Gen) link(depth int, image bool) inline {
 	default: // collapsed / shortcut: the text is the label itself
 		d := g.newDef()
 		sp := g.respell(d.label)
-		tm, th, tp = sp, escHTML(sp), sp
+		if g.ml && !image && g.chance(1, 4) {
+			// the label itself continues on the next line (a line ending inside a label is label white space); inside a container
+			// the continuation line carries the container's markers, which are not part of the label
+			if ws := strings.Split(d.label, " "); len(ws) > 1 {
+				k := 1 + g.pick(len(ws)-1)
+				sp = g.respell(strings.Join(ws[:k], " ")) + "\n" + g.respell(strings.Join(ws[k:], " "))
+				g.St.add("multiline:reference-label")
+			}
+		}
+		tm, th, tp = sp, escHTML(sp), strings.ReplaceAll(sp, "\n", " ")
 		if kind == 2 {
 			md = bang + "[" + sp + "][]"
 			g.St.add("link:collapsed")
